@@ -374,6 +374,43 @@ pub fn law_c09_sub_is_add_negation(d: Date, ts: Timestamp, i: IntervalYM)
     if c.is_ok() { assert(c.unwrap().v() == e.unwrap().v()); }
 }
 
+// when the month k months away has the day, going back k months returns the start: the day of month
+// is kept in both directions, so nothing was clamped
+pub fn law_c09_add_then_sub_returns(d: Date, i: IntervalYM)
+{
+    let r = d.add_interval_ym(i);
+    proof { lemma_civil_props(d.v()); }
+    let ghost c = civil(d.v());
+    let ghost t: int = c.0 * 12 + (c.1 - 1) + i.v();
+    if let Ok(ts) = r {
+        proof {
+            lemma_civil_of(t / 12, t % 12 + 1, c.2);
+            assert(ts.v() == dn(t / 12, t % 12 + 1, c.2) * US_DAY());
+            assert(ts.v() / US_DAY() == dn(t / 12, t % 12 + 1, c.2)) by (nonlinear_arith)
+                requires ts.v() == dn(t / 12, t % 12 + 1, c.2) * US_DAY(), US_DAY() == 86_400_000_000int;
+            assert(ts.v() % US_DAY() == 0) by (nonlinear_arith)
+                requires ts.v() == dn(t / 12, t % 12 + 1, c.2) * US_DAY(), US_DAY() == 86_400_000_000int;
+            assert((t / 12) * 12 + (t % 12 + 1 - 1) - i.v() == c.0 * 12 + (c.1 - 1));
+            assert((c.0 * 12 + (c.1 - 1)) / 12 == c.0 && (c.0 * 12 + (c.1 - 1)) % 12 + 1 == c.1);
+        }
+        let back = ts.sub_interval_ym(i);
+        assert(back.is_ok() && back.unwrap().v() == d.v() * US_DAY());
+    }
+}
+
+// the last day of a month is a fixed point of last_day_of_month and lies in the value's own month
+pub fn law_c09_last_day_idempotent(d: Date)
+{
+    let l = d.last_day_of_month();
+    proof { lemma_civil_props(d.v()); }
+    let ghost c = civil(d.v());
+    proof { lemma_civil_of(c.0, c.1, mdays(c.0, c.1)); lemma_dn_le_lex(c.0, c.1, c.2, c.0, c.1, mdays(c.0, c.1)); }
+    assert(civil(l.v()) == (c.0, c.1, mdays(c.0, c.1)));
+    assert(l.v() >= d.v());
+    let l2 = l.last_day_of_month();
+    assert(l2.v() == l.v());
+}
+
 // ---------------------------------------------------------------- C11
 // the documented midpoint: from year 51 of the century on, the later boundary is chosen
 pub fn law_c11_round_century_midpoint(d: Date)
